@@ -356,6 +356,8 @@ fn arg_cases(rng: &mut Rng, n: u64) -> Vec<(Vec<String>, &'static str)> {
       s
     };
     match kind {
+      // (half of the sizes with the lints in force: the size then ends up in a diagnostic instead of the hasher)
+      0 if rng.chance(1, 2) => v.push((["torrent", "create", "--input", "data", "--dry-run", "--piece-length"].iter().map(|x| x.to_string()).chain([s]).collect(), "arg:byte-size")),
       0 => v.push((create(vec!["--piece-length".into(), s]), "arg:byte-size")),
       1 => v.push((create(vec!["--node".into(), s]), "arg:host-port")),
       2 => v.push((vec!["torrent".into(), "link".into(), "--input".into(), "t.torrent".into(), "--peer".into(), s], "arg:host-port")),
